@@ -662,8 +662,13 @@ func callersWord(cs []seqCaller) string {
 	return strings.Join(ws, ",")
 }
 
-func genPrepAnswer(r *vh.Rng, stmt int) string {
-	switch x := r.Intn(100); {
+func genPrepAnswer(r *vh.Rng, stmt int, first bool) string {
+	x := r.Intn(100)
+	if first {
+		// the first PREPARE of a statement mostly succeeds: the scenario then reaches the execute phase
+		x = x * 34 / 75
+	}
+	switch {
 	case x < 34:
 		id := seqLetters[stmt%3]
 		if r.Intn(5) < 2 {
@@ -713,6 +718,7 @@ func genExecAnswer(r *vh.Rng, p *seqPending, kind byte) string {
 // caller or answer a pending request with a drawn answer; afterwards every pending request gets the
 // answer of the right kind (so that every call returns).
 func genNext(r *vh.Rng, budget *int) func(w *seqWorld) string {
+	seen := map[int]bool{}
 	return func(w *seqWorld) string {
 		w.mu.Lock()
 		pend := append([]*seqPending(nil), w.pending...)
@@ -736,7 +742,9 @@ func genNext(r *vh.Rng, budget *int) func(w *seqWorld) string {
 			*budget--
 			p := pend[r.Intn(len(pend))]
 			if p.prep {
-				return fmt.Sprintf("p%d=%s", p.stmt, genPrepAnswer(r, p.stmt))
+				first := !seen[p.stmt]
+				seen[p.stmt] = true
+				return fmt.Sprintf("p%d=%s", p.stmt, genPrepAnswer(r, p.stmt, first))
 			}
 			kind := byte('q')
 			if p.caller >= 0 && p.caller < len(w.callers) {
@@ -788,7 +796,7 @@ func childSeq() {
 			seed, _ := strconv.ParseUint(f[1], 10, 64)
 			r := vh.NewRng(seed)
 			callers = genSeqCallers(r)
-			budget := 2 + r.Intn(5)
+			budget := 3 + r.Intn(6)
 			next = genNext(r, &budget)
 		case "run":
 			cs, ok := parseSeqCallers(f[1])
